@@ -10,6 +10,7 @@ def poisson(kmean: float) -> callable:
     """
 
     def p(k: int) -> float:
-        return np.exp(-kmean) * pow(kmean, k) / math.factorial(k)
+        # evaluate in log space: pow(kmean, k) and k! overflow a float beyond k ~ 170
+        return np.exp(-kmean + k * np.log(kmean) - math.lgamma(k + 1))
 
     return p
